@@ -1057,6 +1057,97 @@ fn child_write(s: &str) {
 /// index of the call being executed (for panic reports)
 static CUR_IDX: std::sync::atomic::AtomicI64 = std::sync::atomic::AtomicI64::new(-1);
 
+/// Wall-clock budget of ONE sequence (prefix rebuild + call + epilogue). Enforced twice: the child arms alarm(2) before every
+/// sequence, and the worker (its parent) kills the child with SIGKILL when no protocol line arrives for longer than that.
+/// a unit (one prefix) is abandoned after this many violating sequences
+const UNIT_BAD_CAP: usize = 8;
+/// the whole exploration stops after this many distinct violation keys / violating sequences
+const STOP_KEYS: usize = 25;
+const STOP_SEQUENCES: u64 = 200;
+static STOP: std::sync::atomic::AtomicBool = std::sync::atomic::AtomicBool::new(false);
+static BAD_TOTAL: std::sync::atomic::AtomicU64 = std::sync::atomic::AtomicU64::new(0);
+/// worker subprocesses currently running (killed at once when the early stop trips)
+static WORKER_PIDS: Mutex<Vec<u32>> = Mutex::new(Vec::new());
+
+fn stopped() -> bool {
+    STOP.load(std::sync::atomic::Ordering::Relaxed)
+}
+fn trip_stop() {
+    STOP.store(true, std::sync::atomic::Ordering::Relaxed);
+    for pid in WORKER_PIDS.lock().unwrap().iter() {
+        unsafe { libc::kill(*pid as i32, libc::SIGKILL) };
+    }
+}
+
+fn seq_budget_s() -> u32 {
+    if std::env::var("VERIF_C31_VGLOG").is_ok() {
+        120 // under valgrind everything is ~50x slower
+    } else {
+        std::env::var("VERIF_C31_BUDGET_S").ok().and_then(|s| s.parse().ok()).unwrap_or(2)
+    }
+}
+/// wall-clock limit for a sequence that blocks without using CPU (the CPU budget cannot see that); generous, because on a
+/// loaded machine a healthy child may not be scheduled for seconds
+const WALL_BUDGET_S: u32 = 60;
+
+/// (Re-)arm the per-sequence budgets in the child: CPU seconds through ITIMER_PROF (SIGPROF), wall clock through alarm (SIGALRM).
+unsafe fn arm_budget(cpu_s: u32) {
+    let tv = libc::itimerval { it_interval: libc::timeval { tv_sec: 0, tv_usec: 0 }, it_value: libc::timeval { tv_sec: cpu_s as libc::time_t, tv_usec: 0 } };
+    libc::setitimer(libc::ITIMER_PROF, &tv, std::ptr::null_mut());
+    libc::alarm(WALL_BUDGET_S.max(cpu_s * 2));
+}
+
+/// Line reader over a pipe with a timeout (poll), so that a spinning child cannot block its parent.
+struct LineReader {
+    fd: i32,
+    buf: Vec<u8>,
+    eof: bool,
+}
+enum Got {
+    Line(String),
+    Eof,
+    Timeout,
+}
+impl LineReader {
+    fn next(&mut self, timeout_ms: i32) -> Got {
+        loop {
+            if let Some(pos) = self.buf.iter().position(|b| *b == b'\n') {
+                let line: Vec<u8> = self.buf.drain(..=pos).collect();
+                return Got::Line(String::from_utf8_lossy(&line[..line.len() - 1]).into_owned());
+            }
+            if self.eof {
+                return Got::Eof;
+            }
+            let mut pfd = libc::pollfd { fd: self.fd, events: libc::POLLIN, revents: 0 };
+            let r = unsafe { libc::poll(&mut pfd, 1, timeout_ms) };
+            if r == 0 {
+                return Got::Timeout;
+            }
+            if r < 0 {
+                if std::io::Error::last_os_error().kind() == std::io::ErrorKind::Interrupted {
+                    continue;
+                }
+                self.eof = true;
+                continue;
+            }
+            let mut tmp = [0u8; 8192];
+            let n = unsafe { libc::read(self.fd, tmp.as_mut_ptr() as *mut c_void, tmp.len()) };
+            if n <= 0 {
+                self.eof = true;
+            } else {
+                self.buf.extend_from_slice(&tmp[..n as usize]);
+            }
+        }
+    }
+}
+impl Drop for LineReader {
+    fn drop(&mut self) {
+        unsafe {
+            libc::close(self.fd);
+        }
+    }
+}
+
 fn sig_name(status: i32) -> String {
     if libc::WIFSIGNALED(status) {
         let s = libc::WTERMSIG(status);
@@ -1064,7 +1155,8 @@ fn sig_name(status: i32) -> String {
             libc::SIGSEGV => "SIGSEGV".to_string(),
             libc::SIGABRT => "SIGABRT".to_string(),
             libc::SIGBUS => "SIGBUS".to_string(),
-            libc::SIGALRM => "timeout(SIGALRM)".to_string(),
+            libc::SIGALRM => "timeout(SIGALRM, wall clock)".to_string(),
+            libc::SIGPROF => "timeout(SIGPROF, CPU budget)".to_string(),
             libc::SIGILL => "SIGILL".to_string(),
             libc::SIGFPE => "SIGFPE".to_string(),
             _ => format!("signal{s}"),
@@ -1096,7 +1188,8 @@ unsafe fn child_main(env: &Env, unit: &Unit, start: usize, wfd: i32) -> ! {
             libc::_exit(101);
         }
     }));
-    libc::alarm(900);
+    let budget = seq_budget_s();
+    arm_budget(budget * 3);
     let last = unit.prefix.last().cloned().unwrap_or(Op { f: F::Version, args: vec![] });
     let replay = |m: &mut Model| {
         for op in &unit.prefix {
@@ -1118,6 +1211,7 @@ unsafe fn child_main(env: &Env, unit: &Unit, start: usize, wfd: i32) -> ! {
     child_write(&format!("N {}\n", ops.len()));
     for (i, op) in ops.iter().enumerate().skip(start) {
         CUR_IDX.store(i as i64, std::sync::atomic::Ordering::Relaxed);
+        arm_budget(budget);
         child_write(&format!("S {i}\n"));
         let mut m = Model::default();
         replay(&mut m);
@@ -1150,6 +1244,10 @@ unsafe fn child_main(env: &Env, unit: &Unit, start: usize, wfd: i32) -> ! {
 
 #[derive(Default)]
 struct UnitResult {
+    /// sequences of this unit with at least one violation (crash, hang or verdict)
+    bad_sequences: usize,
+    /// the unit was abandoned after UNIT_BAD_CAP violating sequences
+    truncated: bool,
     /// memcheck (valgrind) reported an error in a child that ran this unit to completion: (pid log excerpt)
     memcheck: Vec<String>,
     /// every op announced (needed to refine a memcheck report to single calls)
@@ -1174,6 +1272,10 @@ unsafe fn run_unit(env: &Env, unit: &Unit) -> UnitResult {
     let mut seen_keys: BTreeSet<String> = BTreeSet::new();
     let mut start = 0usize;
     loop {
+        if res.bad_sequences >= UNIT_BAD_CAP {
+            res.truncated = true;
+            break;
+        }
         let mut fds = [0i32; 2];
         if libc::pipe(fds.as_mut_ptr()) != 0 {
             kit::ev::machinery("C31 worker: pipe failed");
@@ -1187,14 +1289,32 @@ unsafe fn run_unit(env: &Env, unit: &Unit) -> UnitResult {
             child_main(env, unit, start, fds[1]);
         }
         libc::close(fds[1]);
-        let rd = BufReader::new(std::fs::File::from_raw_fd(fds[0]));
+        let mut rd = LineReader { fd: fds[0], buf: vec![], eof: false };
+        let budget_ms = (WALL_BUDGET_S.max(seq_budget_s() * 2) as i32) * 1000 + 15000;
+        let mut killed_by_parent = false;
+        let mut stop_unit = false;
         // the sequence being executed: (index, announced op + classes once the prefix is rebuilt)
         let mut started: Option<usize> = None;
         let mut announced: Option<(Value, String)> = None;
         let mut panic_msg: Option<String> = None;
         let mut done = false;
-        for line in rd.lines() {
-            let Ok(line) = line else { break };
+        loop {
+            if res.bad_sequences >= UNIT_BAD_CAP {
+                // enough evidence from this prefix; do not spend minutes on hundreds of hanging calls
+                libc::kill(pid, libc::SIGKILL);
+                stop_unit = true;
+                res.truncated = true;
+                break;
+            }
+            let line = match rd.next(budget_ms) {
+                Got::Line(l) => l,
+                Got::Eof => break,
+                Got::Timeout => {
+                    libc::kill(pid, libc::SIGKILL);
+                    killed_by_parent = true;
+                    break;
+                }
+            };
             let (tag, rest) = line.split_once(' ').unwrap_or((line.as_str(), ""));
             match tag {
                 "N" => res.n_ops = rest.parse().unwrap_or(0),
@@ -1233,6 +1353,9 @@ unsafe fn run_unit(env: &Env, unit: &Unit) -> UnitResult {
                         e.1 += v["ns"].as_u64().unwrap_or(0);
                     }
                     *res.outcomes.entry(v["class"].as_str().unwrap_or("?").to_string()).or_insert(0) += 1;
+                    if v["viol"].as_array().map(|a| !a.is_empty()).unwrap_or(false) {
+                        res.bad_sequences += 1;
+                    }
                     for x in v["viol"].as_array().cloned().unwrap_or_default() {
                         res.violations.push((x[0].as_str().unwrap_or("").to_string(), x[1].as_str().unwrap_or("").to_string(), op.clone()));
                     }
@@ -1256,8 +1379,12 @@ unsafe fn run_unit(env: &Env, unit: &Unit) -> UnitResult {
                 _ => {}
             }
         }
+        drop(rd);
         let mut status = 0i32;
         libc::waitpid(pid, &mut status, 0);
+        if stop_unit {
+            break;
+        }
         // under valgrind: an error seen by memcheck in that child turns its exit status into 97 and leaves a log file
         if let Ok(dir) = std::env::var("VERIF_C31_VGLOG") {
             let lf = format!("{dir}/vg-{pid}.log");
@@ -1274,7 +1401,10 @@ unsafe fn run_unit(env: &Env, unit: &Unit) -> UnitResult {
         if libc::WIFEXITED(status) && libc::WEXITSTATUS(status) == 101 {
             kit::ev::machinery("C31: harness panic in child (exit 101)");
         }
-        let how = sig_name(status);
+        let how = if killed_by_parent { format!("no progress for {}s (killed by the parent)", budget_ms / 1000) } else { sig_name(status) };
+        let hang = killed_by_parent || how.starts_with("timeout");
+        let verb = if hang { "hang" } else { "crash" };
+        res.bad_sequences += 1;
         let panic_txt = panic_msg.as_ref().map(|p| format!(" — {p}")).unwrap_or_default();
         match (started, announced) {
             (Some(i), Some((op, argtxt))) => {
@@ -1285,10 +1415,14 @@ unsafe fn run_unit(env: &Env, unit: &Unit) -> UnitResult {
                     res.nontrivial += 1;
                 }
                 let fname = o.as_ref().map(|o| o.f.name()).unwrap_or("?");
-                *res.outcomes.entry(format!("{fname} [{argtxt}] -> CRASH {how}")).or_insert(0) += 1;
+                *res.outcomes.entry(format!("{fname} [{argtxt}] -> {} {how}", verb.to_uppercase())).or_insert(0) += 1;
                 res.violations.push((
-                    format!("crash fn={fname} args=[{argtxt}] how={how}"),
-                    format!("the process died with {how} in {}{panic_txt}", o.as_ref().map(|o| o.text()).unwrap_or_default()),
+                    if hang { format!("hang fn={fname} args=[{argtxt}]") } else { format!("crash fn={fname} args=[{argtxt}] how={how}") },
+                    if hang {
+                        format!("{} did not finish within its budget of {}s CPU / 60s wall clock ({how}){panic_txt}", o.as_ref().map(|o| o.text()).unwrap_or_default(), seq_budget_s())
+                    } else {
+                        format!("the process died with {how} in {}{panic_txt}", o.as_ref().map(|o| o.text()).unwrap_or_default())
+                    },
                     op.clone(),
                 ));
                 if unit.verbose {
@@ -1303,7 +1437,7 @@ unsafe fn run_unit(env: &Env, unit: &Unit) -> UnitResult {
                 // died while rebuilding a prefix that ran without a crash one level up: a violation of its own; give up on the unit
                 res.executed += 1;
                 res.violations.push((
-                    format!("crash phase=prefix-replay how={how} last={}", unit.prefix.last().map(|o| o.f.name()).unwrap_or("-")),
+                    if hang { format!("hang phase=prefix-replay last={}", unit.prefix.last().map(|o| o.f.name()).unwrap_or("-")) } else { format!("crash phase=prefix-replay how={how} last={}", unit.prefix.last().map(|o| o.f.name()).unwrap_or("-")) },
                     format!("the process died with {how} while replaying a prefix that had run before: {}{panic_txt}", unit.prefix.iter().map(|o| o.text()).collect::<Vec<_>>().join(" ; ")),
                     unit.prefix.last().map(|o| o.to_json()).unwrap_or(Value::Null),
                 ));
@@ -1358,6 +1492,8 @@ fn worker_main(spec_path: &str) -> ! {
             "n_ops": r.n_ops,
             "executed": r.executed,
             "nontrivial": r.nontrivial,
+            "bad": r.bad_sequences,
+            "truncated": r.truncated,
             "examples": r.examples.iter().map(|(o, c)| json!([o, c])).collect::<Vec<_>>(),
             "times": r.times.iter().map(|(k, v)| (k.clone(), json!([v.0, v.1]))).collect::<serde_json::Map<String, Value>>(),
             "outcomes": r.outcomes,
@@ -1441,12 +1577,26 @@ fn run_units_opt(run: &Run, units: &[Unit], judge_into_run: bool, memcheck: bool
                     .stderr(Stdio::null())
                     .spawn()
                     .unwrap_or_else(|e| kit::ev::machinery(format!("cannot spawn worker: {e}")));
+                WORKER_PIDS.lock().unwrap().push(child.id());
+                if stopped() {
+                    let _ = child.kill();
+                }
                 let so = child.stdout.take().unwrap_or_else(|| kit::ev::machinery("worker stdout"));
                 let mut got = 0usize;
                 for line in BufReader::new(so).lines() {
+                    if stopped() {
+                        let _ = child.kill();
+                        break;
+                    }
                     let Ok(line) = line else { break };
                     let Ok(v) = serde_json::from_str::<Value>(&line) else { continue };
                     got += 1;
+                    if judge_into_run {
+                        let total = BAD_TOTAL.fetch_add(v["bad"].as_u64().unwrap_or(0), std::sync::atomic::Ordering::Relaxed) + v["bad"].as_u64().unwrap_or(0);
+                        if total >= STOP_SEQUENCES {
+                            trip_stop();
+                        }
+                    }
                     let id = v["id"].as_u64().unwrap_or(0) as usize;
                     let unit = &units[id];
                     let mut g = result.lock().unwrap();
@@ -1487,6 +1637,9 @@ fn run_units_opt(run: &Run, units: &[Unit], judge_into_run: bool, memcheck: bool
                             run.sample(json!({"history": h, "observed_last_call": x[1]}));
                         }
                     }
+                    if judge_into_run && DEDUP.lock().unwrap().len() >= STOP_KEYS {
+                        trip_stop();
+                    }
                     for l in v["log"].as_array().cloned().unwrap_or_default() {
                         println!("  {}", l.as_str().unwrap_or(""));
                     }
@@ -1494,7 +1647,11 @@ fn run_units_opt(run: &Run, units: &[Unit], judge_into_run: bool, memcheck: bool
                     g.succ.insert(id, s);
                 }
                 let st = child.wait();
+                WORKER_PIDS.lock().unwrap().retain(|p| *p != child.id());
                 let expected = (0..units.len()).filter(|id| id % nworkers == w).count();
+                if stopped() {
+                    return;
+                }
                 if got != expected || !st.map(|s| s.success()).unwrap_or(false) {
                     kit::ev::machinery(format!("C31: worker for {} returned {got}/{expected} unit results (a worker itself must never die)", p.display()));
                 }
@@ -1638,6 +1795,7 @@ pub fn run(run: &Run, replay: Option<&Value>) {
     run.assume("typed free functions (c2pa_reader_free, ...) return void and are documented as equivalent to c2pa_free: given a live handle of another type they release it; for void functions the error indicator is the presence of a fresh c2pa_error()");
     run.assume("when a call that consumes an argument on success fails, the status of that argument is unspecified (c2pa_context_builder_set_signer, c2pa_context_builder_set_http_resolver, c2pa_identity_signer_create); the next use decides. Functions documented to invalidate their first argument in every case (reader/builder with_*, context_builder_build) are modelled that way");
     run.assume("function-pointer arguments are always valid functions; non-handle pointers (strings, out-pointers, byte buffers) are always valid; explored sequentially in one thread");
+    run.assume("every sequence has a CPU budget of 2 s (120 s under valgrind; ITIMER_PROF) and a wall-clock budget of 60 s (alarm(2) in the child, SIGKILL from its parent after 75 s without progress); exceeding it is reported as `hang`. A prefix is abandoned after 8 violating sequences and the whole run stops (marked non-exhaustive) after 25 distinct violation keys or 200 violating sequences");
     run.assume("library linked as rlib into the harness with debug assertions and overflow checks on (profile of the whole harness), glibc malloc with MALLOC_PERTURB_ so that use-after-free reads garbage");
 
     if let Some(c) = replay {
@@ -1723,6 +1881,9 @@ pub fn run(run: &Run, replay: Option<&Value>) {
         let mut frontier: Vec<Vec<Op>> = vec![vec![]];
         let mut count = 0u64;
         for depth in 1..=d_full {
+            if stopped() {
+                break;
+            }
             let last = depth == d_full;
             let units: Vec<Unit> = frontier.iter().map(|h| Unit { prefix: h.clone(), only: None, want_succ: !last, dedup: false, verbose: false, core: false, ops: vec![] }).collect();
             let r = run_units(run, &units, true);
@@ -1755,6 +1916,9 @@ pub fn run(run: &Run, replay: Option<&Value>) {
         let mut frontier: Vec<Vec<Op>> = vec![vec![]];
         let mut count = 0u64;
         for depth in 1..=d_core {
+            if stopped() {
+                break;
+            }
             let last = depth == d_core;
             let units: Vec<Unit> = frontier.iter().map(|h| Unit { prefix: h.clone(), only: None, want_succ: !last, dedup: false, verbose: false, core: true, ops: vec![] }).collect();
             let r = run_units(run, &units, depth > d_full);
@@ -1785,7 +1949,7 @@ pub fn run(run: &Run, replay: Option<&Value>) {
     }
 
     // ---- (1c) targeted use / consume / use-again shapes, unreduced (both tiers) ----
-    {
+    if !stopped() {
         let units = targeted_units();
         let r = run_units(run, &units, true);
         for (k, v) in &r.times {
@@ -1814,7 +1978,7 @@ pub fn run(run: &Run, replay: Option<&Value>) {
         let mut frontier: Vec<Vec<Op>> = vec![vec![]];
         let mut count = 0u64;
         for depth in 1..=d_bfs {
-            if frontier.is_empty() {
+            if frontier.is_empty() || stopped() {
                 break;
             }
             let last = depth == d_bfs;
@@ -1869,7 +2033,7 @@ pub fn run(run: &Run, replay: Option<&Value>) {
         );
     }
     // ---- (3) thorough: the BFS sequences of length <= 3 again under valgrind memcheck (silent use-after-free / double free) ----
-    if run.tier.is_thorough() {
+    if run.tier.is_thorough() && !stopped() {
         let have = Command::new("valgrind").arg("--version").stdout(Stdio::null()).stderr(Stdio::null()).status().map(|s| s.success()).unwrap_or(false);
         if have {
             // baseline: a unit of valid calls must be clean, otherwise memcheck noise would be blamed on the library
@@ -1889,6 +2053,13 @@ pub fn run(run: &Run, replay: Option<&Value>) {
         } else {
             run.assume("valgrind is not installed: the memcheck re-execution of the thorough tier was skipped");
         }
+    }
+    if stopped() {
+        run.cap_hit(&format!(
+            "exploration stopped early after {} distinct violation keys / {} violating sequences (limits {STOP_KEYS} / {STOP_SEQUENCES}); the remaining space was not explored",
+            DEDUP.lock().unwrap().len(),
+            BAD_TOTAL.load(std::sync::atomic::Ordering::Relaxed)
+        ));
     }
     dedup_flush(run);
     run.states(total_states.len() as u64);
